@@ -48,6 +48,16 @@ def gen_config_toggle(r, tier):
                 f"su.fan fan=f1 {base} cfgmap=0 mapstyle=identity", "su.start fan=f1", "su.data fan=f1",
                 f"su.fan fan=f1 {base} cfgmap=1 mapstyle={r.pick(['identity', 'plateau', 'shifted'])}", "su.start fan=f1",
                 f"su.fan fan=f1 {base} cfgmap=0 mapstyle=identity", "su.start fan=f1", "su.data fan=f1"]
+    # ... and a fan that is taken out of the configuration for one start of the OTHER fans and then put back (seed C15j: the
+    # start-up "cleaned up" the stored entries of fans the configuration did not list)
+    for _ in range(4 if tier == "quick" else 60):
+        p = r.below(2)
+        fa = f"kind=hwmon minmax=0 hasrpm=1 ns=0 quant={r.pick([0, 2])} spinat={r.range(5, 90)} cfgmap=0 mapstyle=identity"
+        fb = f"kind=hwmon minmax=0 hasrpm=1 ns={r.below(2)} quant={r.pick([0, 4])} spinat={r.range(5, 90)} cfgmap=0 mapstyle=identity"
+        ops += [f"#case su toggle parallel={p}", f"su.open parallel={p} yield_us=0",
+                f"su.fan fan=fa {fa}", f"su.fan fan=fb {fb}", "su.start fan=fa", "su.start fan=fb", "su.data fan=fb",
+                "su.drop fan=fb", "su.start fan=fa",
+                f"su.fan fan=fb {fb}", "su.start fan=fb", "su.data fan=fb"]
     return ops
 
 
@@ -113,6 +123,16 @@ class C15(Prop):
         if name == "config-toggle":
             for cops, cgo in cases(ops, go):
                 starts = [i for i, o in enumerate(cops) if o.startswith("su.start")]
+                if any(o.startswith("su.drop") for o in cops):
+                    datas = [i for i, o in enumerate(cops) if o.startswith("su.data")]
+                    if len(starts) == 4 and len(datas) == 2 and kv(cgo[starts[1]]).get("res") == "ok":
+                        last = kv(cgo[starts[3]])
+                        if last.get("sweep") == "1" or last.get("measure") == "1" or last.get("res") != "ok":
+                            out.append(viol("a fan that had been analysed was analysed again after it had been out of the configuration for one start "
+                                            "of the other fans (nobody discarded its stored data)", cops, cgo, upto=starts[3]))
+                        elif cgo[datas[0]] != cgo[datas[1]]:
+                            out.append(viol("the stored PWM map / RPM curve of an analysed fan changed while it was out of the configuration", cops, cgo))
+                    continue
                 if len(starts) == 3 and kv(cgo[starts[0]]).get("res") == "ok":
                     last = kv(cgo[starts[2]])
                     if last.get("sweep") == "1" or last.get("measure") == "1" or last.get("res") != "ok":
